@@ -11,6 +11,10 @@ for f in sorted(glob.glob(os.path.join(os.path.dirname(__file__), "..", "seeded"
     conc = q.get("with_concrete_replay", [])
     summ = re.sub(r"\s+", " ", m.get("summary", m.get("raw", "")))[:230]
     files = ", ".join(m.get("files_touched", [])[:3]) if isinstance(m.get("files_touched"), list) else str(m.get("files_touched"))
+    oh = m.get("own_check_at_head")
+    if oh is not None:       # the property's own check re-run against the change at the final state of /verif
+        caught = sorted(set(caught) | ({own} if oh["rc"] == 1 else set()) - (set() if oh["rc"] == 1 else {own}))
+        conc = sorted(set(conc) | ({own} if oh["rc"] == 1 and not oh.get("no_failing_input") else set()))
     mark = "yes" if own in caught else "**no**"
     others = " ".join(c for c in caught if c != own) or "–"
     rows.append("| %s | %s | %s | %s%s | %s |" % (name, files, summ.replace("|", "/"), mark, "" if own not in caught or own in conc else " (tie only)", others))
